@@ -93,14 +93,30 @@ class _FuseMinMaxBase(RewriteRuleClassBase, abc.ABC):
         first_node = out1.producer()
         second_node = out2.producer()
 
+        # There must be something to fuse: at least one constant overall, and for the
+        # Clip fusions at least one bound on each node (np.max/np.min of nothing raises).
+        if len(first_node.inputs) + len(second_node.inputs) < 3 or (
+            self.need_scalars and (len(first_node.inputs) < 2 or len(second_node.inputs) < 2)
+        ):
+            return check_result.fail("No constant operand to fuse.")
+
+        x = first_node.inputs[0]
+        x_rank = None if x is None or x.shape is None else len(x.shape)
+
         # Ensure all inputs except the first are constants
         for input_ in first_node.inputs[1:] + second_node.inputs[1:]:
             if ir.convenience.get_const_tensor(input_) is None:
                 return check_result.fail(f"{input_.name} is not a constant.")
 
             # If scalars are required (Clip fusion), enforce scalar-ness
-            if self.need_scalars and not self._is_scalar(input_.const_value.numpy()):
-                return check_result.fail(f"{input_.name} is not a scalar.")
+            if self.need_scalars:
+                value = input_.const_value.numpy()
+                if not self._is_scalar(value):
+                    return check_result.fail(f"{input_.name} is not a scalar.")
+                # Min/Max broadcast: a size-1 bound of higher rank than X raises the rank of
+                # the result, whereas Clip (0-d bounds) keeps the shape of X.
+                if value.ndim > 0 and (x_rank is None or value.ndim > x_rank):
+                    return check_result.fail(f"{input_.name} has a higher rank than the input.")
 
         if self.need_scalars and self.check_bounds:
             # For Clip fusion in the case of Max(Min(X, upper_bound), lower_bound): check that lower_bound <= upper_bound
@@ -187,8 +203,13 @@ class FuseMaxMinToClip(_FuseMinMaxBase):
         second_node: ir.Node,
         input_name: str = "",
     ) -> list[tuple[ir.Tensor, str]]:
-        lower_bound = np.max([input_.const_value.numpy() for input_ in first_node.inputs[1:]])
-        upper_bound = np.min([input_.const_value.numpy() for input_ in second_node.inputs[1:]])
+        # reshape(()): bounds of different shapes ([] and [1]) cannot be stacked by np.max/np.min
+        lower_bound = np.max(
+            [input_.const_value.numpy().reshape(()) for input_ in first_node.inputs[1:]]
+        )
+        upper_bound = np.min(
+            [input_.const_value.numpy().reshape(()) for input_ in second_node.inputs[1:]]
+        )
         return [
             (ir.tensor(lower_bound), f"{input_name}_min"),
             (ir.tensor(upper_bound), f"{input_name}_max"),
@@ -223,8 +244,12 @@ class FuseMinMaxToClip(_FuseMinMaxBase):
         second_node: ir.Node,
         input_name: str = "",
     ) -> list[tuple[ir.Tensor, str]]:
-        upper_bound = np.min([input_.const_value.numpy() for input_ in first_node.inputs[1:]])
-        lower_bound = np.max([input_.const_value.numpy() for input_ in second_node.inputs[1:]])
+        upper_bound = np.min(
+            [input_.const_value.numpy().reshape(()) for input_ in first_node.inputs[1:]]
+        )
+        lower_bound = np.max(
+            [input_.const_value.numpy().reshape(()) for input_ in second_node.inputs[1:]]
+        )
         return [
             (ir.tensor(lower_bound), f"{input_name}_min"),
             (ir.tensor(upper_bound), f"{input_name}_max"),
